@@ -26,6 +26,12 @@ CHECKS = {
             {"name": "smoke", "pkg": "pkg/verifflow", "harness": "flow", "run": "^TestVerifFlow$", "instrument": True, "shards": 4},
         ],
     },
+    "C14": {
+        "rule": "explicit-state BFS: state = API operation history on fresh real orchestrator+services; alphabet = create/update/delete/start/stop of pipelines, connectors, processors with valid and invalid arguments, and for every call the variant where its k-th store write/commit fails (every k); distinct = canonical dump (ids renamed by creation order, timestamps dropped)",
+        "parts": [
+            {"name": "api-bfs", "pkg": "pkg/verifapi", "harness": "api", "run": "^TestVerifC14$", "shards": 16, "shards_thorough": 16},
+        ],
+    },
     "C18": {
         "rule": "IPv4: every address (thorough) / 4 addresses of every /24 + floor boundaries (quick) in 8 carrier forms; IPv6: all leading hextets x tails; dial: every resolver answer sequence <=2 (quick) / <=3 (thorough) x allowlists x ports; policy: all subset pairs of a 4-entry universe x refs x timeouts x sizes",
         "parts": [
